@@ -284,7 +284,7 @@ def gen_history(rng, ctx):
             ops_.append({'op': 'gen_finish', 'h': h})
     for _ in range(rng.randint(1, 3)):
         ops_.append(pal.call(rng))
-    return {'ops': ops_, 'timeout': 90.0}
+    return {'ops': ops_, 'timeout': 300.0}
 
 
 POLICY_P = [0.001, 0.003, 0.01, 0.01, 0.03, 0.05, 0.1, 0.3]
@@ -390,7 +390,7 @@ def gen_threads(rng, ctx, pop, idx):
                                     for _ in range(d - 1))}
     return {'threads': progs, 'policy': policy, 'instr': instr,
             'warm': pop == 'S', 'rseed': rng.getrandbits(48),
-            'timeout': 90.0}
+            'timeout': 300.0}
 
 
 def _op_key(op):
@@ -608,7 +608,7 @@ def run_threads(spec, refs):
                 _exec_thread_op(s, tid, op, records[t])
         return body
     fatal = s.run([mk(t) for t in range(nth)], wall_timeout=spec.get(
-        'timeout', 90.0) - 10)
+        'timeout', 300.0) - 20)
     viols = []
     if fatal:
         if fatal['kind'] in ('walltimeout', 'harness'):
